@@ -21,6 +21,7 @@ impl PartialEqSpecImpl for Border { open spec fn obeys_eq_spec() -> bool { true 
 impl PartialEq for Border { #[verifier::external_body] fn eq(&self, other: &Border) -> bool { unimplemented!() } }
 impl Clone for Border { #[verifier::external_body] fn clone(&self) -> (r: Self) ensures r == *self { unimplemented!() } }
 impl Clone for Alignment { #[verifier::external_body] fn clone(&self) -> (r: Self) ensures r == *self { unimplemented!() } }
+//@include std_text.rs
 //@type base/src/types.rs NumFmt
 //@type base/src/types.rs CellXfs
 //@type base/src/types.rs CellStyleXfs
@@ -222,7 +223,7 @@ impl Styles {
             proof { lemma_first_with_id(self.num_fmts@, index); }
 //@loop 1 it
             invariant self.wf()
-//@after `if text_eq(&item.format_code, format_code) {`
+//@after? `if text_eq(&item.format_code, format_code) {`
                 proof { lemma_first_with_id(self.num_fmts@, item.num_fmt_id); }
 //@end
 
